@@ -385,7 +385,7 @@ class Evaluator:
             if body.blocks[bb]["cleanup"] or kind not in ("assign", "call"):
                 continue
             v = self.rvalue(ctx, payload) if kind == "assign" else self.call(ctx, bb, payload)
-            if v[0] in ("int", "const", "param", "cparam"):
+            if v[0] in ("const", "param", "cparam") or (v[0] == "int" and v != ("int", 0)):
                 continue
             fs = [f for f in block_facts(self, ctx, bb) if len(f) == 3 and f[0] in ("lt", "le", "eq", "ne")]
             per_value.setdefault(v, []).append(fs)
@@ -434,6 +434,14 @@ class Evaluator:
                     if v[0] == "call" and v[1] == "bool::then_some" and len(v[2]) == 2:
                         # `cond.then_some(x)`: a `Some(x)` built where cond holds
                         self._pending.append(("payload+", ctx, bb, v[2][1], v[2][0]))
+                    if v[0] == "call" and v[1] == "Option::filter" and len(v[2]) == 2:
+                        # `Some(x).filter(|x| cond(x))`: a `Some(x)` that exists only where cond(x) holds
+                        rc = v[2][0]
+                        while rc[0] == "ref":
+                            rc = rc[1]
+                        if rc[0] == "agg" and rc[1].endswith("Option::Some") and rc[2]:
+                            cnd = self.closure_ret(ctx, v[2][1], [("ref", rc[2][0])])
+                            self._pending.append(("payload+", ctx, bb, rc[2][0], cnd))
                 elif kind == "mutcall":
                     opts.append(("call", "Vec::pushed", (("cyclic", body.debug_names.get(l, "_%d" % l)),
                                                          self.operand(ctx, payload["args"][1]))))
@@ -703,6 +711,19 @@ class Evaluator:
         if model == "Option::unwrap_or" and len(args) == 2 and args[1] == ("int", 0) and args[0][0] == "call" \
                 and args[0][1] == "checked_sub" and len(args[0][2]) == 2:
             return ("call", "saturating_sub", args[0][2])  # a.checked_sub(b).unwrap_or(0)
+        if model == "Option::unwrap_or" and len(args) == 2 and args[0][0] == "call" and args[0][1] == "Option::filter" \
+                and len(args[0][2]) == 2:
+            # `Some(x).filter(|x| *x <= d).unwrap_or(d)` is min(x, d)
+            rc = args[0][2][0]
+            while rc[0] == "ref":
+                rc = rc[1]
+            if rc[0] == "agg" and rc[1].endswith("Option::Some") and rc[2]:
+                from guards import bool_facts, unref as _ur
+                x_ = rc[2][0]
+                cnd = self.closure_ret(ctx, args[0][2][1], [("ref", x_)])
+                for f_ in bool_facts(cnd, True):
+                    if len(f_) == 3 and f_[0] in ("le", "lt") and _ur(f_[1]) == _ur(x_) and _ur(f_[2]) == _ur(args[1]):
+                        return ("call", "min", (x_, args[1]))
         if model == "Option::unwrap_or" and len(args) == 2 and args[0][0] == "call" and len(args[0][2]) == 2 \
                 and args[0][1] in ("bool::then", "bool::then_some"):
             # cond.then(|| v).unwrap_or(d): one of the two values
@@ -735,6 +756,22 @@ class Evaluator:
             al = alts(args[0])
             if al is not None:
                 return mk_phi([args[1]] + [self.closure_ret(ctx, args[2], [v]) for v in al])
+        if model in ("is_empty", "len") and args:
+            # the length of a sub-slice `s[b..e]` is e - b, of `s[..n]` it is n (the indexing panics otherwise)
+            v = args[0]
+            while v[0] in ("ref", "deref", "inner"):
+                v = v[1]
+            ln = None
+            if v[0] == "call" and v[1] == "index" and len(v[2]) == 2:
+                rg = v[2][1]
+                while rg[0] == "ref":
+                    rg = rg[1]
+                if rg[0] == "agg" and rg[1].endswith("ops::Range::Range") and len(rg[2]) == 2:
+                    ln = mk_bin("Sub", rg[2][1], rg[2][0])
+                elif rg[0] == "agg" and rg[1].endswith("ops::RangeTo::RangeTo") and len(rg[2]) == 1:
+                    ln = rg[2][0]
+            if ln is not None:
+                return ("call", "eq", (ln, ("int", 0))) if model == "is_empty" else ln
         if model == "is_empty" and args:
             return ("call", "eq", (("call", "len", (args[0],)), ("int", 0)))
         if model == "range_is_empty" and args:
